@@ -4,6 +4,7 @@ C18 — printed paths are valid override paths; flag directives apply in order.
 -/
 import FiddleModel.Model.Flags
 import FiddleModel.Lemmas.PathsL
+import FiddleModel.Generated.Tables
 
 namespace Fiddle
 
@@ -348,5 +349,13 @@ example : parsePath ['[', '\'', 'i', 't', '\'', 's', '\'', ']'] = .error := by d
 example : parsePath ['[', '0', '0', '7', ']'] = .error ∧
     parsePath ['[', '0', '0', ']'] = .ok [.key (.int 0)] := by
   constructor <;> decide
+
+/-- Table obligation (regenerated from the source on every run): the grammar `parsePath` scans is
+    the one `daglish_extensions._PATH_PART` is compiled from, and `set_value` cuts `path=value`
+    with `split('=', 1)`, which is what `splitAssign` models. -/
+theorem C18_grammar_source_obligation :
+    Tables.pathPartAlternatives =
+      ["\\.(?P<attr_name>[\\w_]+)", "\\[(?P<key>\\d+|'[^']*'|\\\"[^\\\"]*\\\")\\]"] ∧
+    Tables.setValueSplit = ["split", "=", "1"] := by decide
 
 end Fiddle
